@@ -2,9 +2,10 @@
 (***************************************************************************)
 (* Reference semantics of Gleam's scoping rules for the supported core,    *)
 (* written as a pushdown generator: a behaviour of this specification is   *)
-(* the left-to-right derivation of one program (module "m1", which may     *)
-(* import the fixed library module "m2"), and the state carries exactly    *)
-(* what Gleam's scoping rule needs - a stack of binding frames.            *)
+(* the left-to-right derivation of one program (module "m1" of package     *)
+(* `app`, which may import the fixed library modules "m2" and "sub/m2" of  *)
+(* the package `lib` it depends on), and the state carries exactly what    *)
+(* Gleam's scoping rule needs - a stack of binding frames.                 *)
 (*                                                                         *)
 (*   todo    stack of grammar symbols still to be expanded / emitted       *)
 (*   out     the tokens emitted so far; every identifier token carries     *)
@@ -28,31 +29,71 @@
 (*  - function and lambda parameters are visible in the body only          *)
 (*  - case-clause patterns bind in the clause's guard and body only        *)
 (*  - blocks delimit scopes                                                *)
-(*  - `import m2` / `import m2 as q` give a module accessor;               *)
-(*    `import m2.{c}` / `import m2.{c as d}` bind an unqualified name to   *)
-(*    a PUBLIC declaration of m2; private declarations are not reachable   *)
+(*  - `import m2` / `import sub/m2` give a module accessor named like the  *)
+(*    LAST segment of the path, `import sub/m2 as q` the accessor q ONLY;  *)
+(*    a module header has up to two imports (of different modules, under   *)
+(*    different accessors: two plain imports of m2 and sub/m2 would both   *)
+(*    claim `m2`, which Gleam rejects); `acc.x` denotes the declaration x  *)
+(*    of the module acc stands for                                         *)
+(*  - `import m.{c}` / `import m.{c as d}` bind an unqualified name to a   *)
+(*    PUBLIC declaration of m; private declarations are not reachable      *)
 (***************************************************************************)
 EXTENDS Naturals, Sequences, FiniteSets, TLC, Json
 
 CONSTANTS Budget,        \* non-default productions per program
-          MaxItems,      \* top-level items of m1 (besides the import)
+          MaxItems,      \* top-level items of m1 (besides the imports)
           Masked,        \* productions switched off (triggers of recorded findings etc.)
+          Headers,       \* which module headers (import forms) are derived: "plain" | "base" | "bfs" | "pairs" | "all"
           Sim            \* TRUE: simulation mode (random draws, Finish prints the program)
 
 Names     == {"a", "b"}                 \* value names: locals, parameters, functions, constants
 SpareNames == {"e1", "e2", "e3", "e4", "e5", "e6", "e7", "e8"}   \* only for patterns with more binders than Names
 ItemBase  == 1000
-\* the fixed library module m2 (text in the harness, ids here)
-LibValues == [a |-> 2001, c |-> 2002, A |-> 2003, C |-> 2004, k |-> 2005]   \* public values
-LibTypeT  == 2006                       \* m2 also declares `pub type T { W }`: same spelling as m1's own type
-LibTypeA  == 2007                       \* `pub type A { A(a: Int) C }`: the type A (the constructor A is LibValues.A)
-LibFieldA == 2008                       \* ... and its labelled field a
+\* The fixed library modules m2 and sub/m2 (texts in the harness, ids here).  Their paths share the LAST segment, and both
+\* declare the same names - so an accessor, not a spelling, decides which declaration `acc.c` denotes:
+\*   pub fn a, pub fn c, pub type A { A(a: Int) C }, pub const k, pub type T { W }   and the private fn p, type P { Q };
+\* sub/m2 additionally has a public function s.
+LibMods   == {"m2", "sub/m2"}
+LibBase(m) == IF m = "m2" THEN 2000 ELSE 3000          \* the module itself (target of an accessor)
+LibOff    == [a |-> 1, c |-> 2, A |-> 3, C |-> 4, k |-> 5]   \* public values (A, C: the constructors)
+OffTypeT  == 6                          \* `pub type T { W }`: same spelling as m1's own type
+OffTypeA  == 7                          \* `pub type A { A(a: Int) C }`: the type A (the constructor A is LibOff.A)
+OffFieldA == 8                          \* ... and its labelled field a
+LibVal(m, n) == LibBase(m) + LibOff[n]
 LibPrivate == {"p", "Q"}                 \* private function p; constructor Q of the private type P
-LibModule == 2000                       \* the module itself (target of an accessor)
-\* unqctor: `import m2.{A}` brings the CONSTRUCTOR A into the value namespace, not the type A;
-\* unqtype: `import m2.{type A}` brings the TYPE only; typealias: `import m2.{type T as L}` - the type m2.T under the
-\* name L (m1's own type T, if declared, is a different declaration with the original spelling)
-ImportForms == {"none", "plain", "alias", "unq", "unqalias", "unqctor", "unqtype", "typealias"}
+\* what `acc.` offers: the public functions and constructors of the module
+LibMembers(m) == {"a", "c", "A", "C", "W"} \cup (IF m = "sub/m2" THEN {"s"} ELSE {})
+
+\* One import:  import <m> [.{ item }] [as <as>]
+\*   u = "unq"       .{c}             the function c
+\*       "unqalias"  .{c as d}        ... under the name d (c itself is then NOT in scope)
+\*       "unqctor"   .{A}             the CONSTRUCTOR A comes into the value namespace, not the type A
+\*       "unqtype"   .{type A}        the TYPE only
+\*       "typealias" .{type T as L}   the type T of the library under the name L (m1's own type T, if declared, is a
+\*                                    different declaration with the original spelling)
+UnqKinds == {"none", "unq", "unqalias", "unqctor", "unqtype", "typealias"}
+Imp(m, as, u) == [m |-> m, as |-> as, u |-> u]
+\* the accessor an import brings into scope: the alias if there is one, else the last path segment - `m2` for both modules
+AccOf(i) == IF i.as # "" THEN i.as ELSE "m2"
+\* the first import's alias is q, the second one's r
+ImportsAt(k) == {Imp(m, as, u) : m \in LibMods, as \in {"", IF k = 1 THEN "q" ELSE "r"}, u \in UnqKinds}
+\* what Gleam accepts: different modules under different accessors, no unqualified name (per namespace) bound twice -
+\* any two different item kinds bind different (namespace, name) pairs
+Sensible(h) == Len(h) = 2 => /\ h[1].m # h[2].m
+                             /\ AccOf(h[1]) # AccOf(h[2])
+                             /\ (h[1].u = "none" \/ h[2].u = "none" \/ h[1].u # h[2].u)
+AllHeaders == {h \in {<<>>} \cup {<<i>> : i \in ImportsAt(1)} \cup {<<i, j>> : i \in ImportsAt(1), j \in ImportsAt(2)} : Sensible(h)}
+\* "plain": `import m2`;
+\* "base":  no import, m2 plain / aliased / with an unqualified function / constructor, the nested path plain (EVERY production
+\*          is derived under these; a production that mentions no imported name or accessor means the same under every header);
+\* "bfs":   every header with at most one unqualified item (the import-sensitive productions are derived under these);
+\* "pairs": the two-import headers without unqualified items: both modules, {plain, as} for each, both orders;
+\* "all":   every sensible header (simulation)
+HeaderSet == CASE Headers = "plain" -> {<<Imp("m2", "", "none")>>}
+               [] Headers = "base"  -> {<<>>, <<Imp("m2", "q", "none")>>, <<Imp("sub/m2", "", "none")>>} \cup {<<Imp("m2", "", u)>> : u \in {"none", "unq", "unqctor"}}
+               [] Headers = "bfs"   -> {h \in AllHeaders : Len(h) = 2 => (h[1].u = "none" \/ h[2].u = "none")}
+               [] Headers = "pairs" -> {h \in AllHeaders : Len(h) = 2 /\ h[1].u = "none" /\ h[2].u = "none"}
+               [] OTHER             -> AllHeaders
 \* m1 may declare one record type  `type T { T ( a : Int , b : Int ) V ( a : Int , b : Int ) }`: the type T and the
 \* constructor T share a spelling but live in different namespaces; the fields are spelled like the value names and
 \* are common to both variants (Gleam allows `.a` only for such fields): a common field is ONE declaration, declared
@@ -60,8 +101,8 @@ ImportForms == {"none", "plain", "alias", "unq", "unqalias", "unqctor", "unqtype
 \* ids: type = ItemBase + i, constructor T = +100, constructor V = +200, field a = +300, field b = +400
 CtorT == 100  CtorU == 200  FieldA == 300  FieldB == 400
 
-VARIABLES todo, out, frames, pending, budget, imp, items, phase
-vars == <<todo, out, frames, pending, budget, imp, items, phase>>
+VARIABLES todo, out, frames, pending, budget, imps, items, phase
+vars == <<todo, out, frames, pending, budget, imps, items, phase>>
 
 \* grammar symbols: s = symbol, x = string argument, n = integer argument
 Sym(s, x, n) == [s |-> s, x |-> x, n |-> n]
@@ -88,18 +129,21 @@ Local(name) ==
 ItemId(name) ==
     LET idx == {i \in 1..Len(items) : items[i].n = name /\ items[i].k \in {"fn", "const"}}
     IN IF idx = {} THEN 0 ELSE ItemBase + (CHOOSE i \in idx : TRUE)
+\* the import (index) that carries an unqualified item of the given kind, 0 if none (Sensible: at most one)
+UnqAt(kind) == LET ks == {k \in 1..Len(imps) : imps[k].u = kind} IN IF ks = {} THEN 0 ELSE CHOOSE k \in ks : TRUE
+UnqMod(kind) == imps[UnqAt(kind)].m
 Imported(name) ==
-    IF imp = "unq" /\ name = "c" THEN LibValues.c
-    ELSE IF imp = "unqalias" /\ name = "d" THEN LibValues.c
-    ELSE IF imp = "unqctor" /\ name = "A" THEN LibValues.A
+    IF name = "c" /\ UnqAt("unq") # 0 THEN LibVal(UnqMod("unq"), "c")
+    ELSE IF name = "d" /\ UnqAt("unqalias") # 0 THEN LibVal(UnqMod("unqalias"), "c")
+    ELSE IF name = "A" /\ UnqAt("unqctor") # 0 THEN LibVal(UnqMod("unqctor"), "A")
     ELSE 0
 TypeItem == LET idx == {i \in 1..Len(items) : items[i].k = "type"} IN IF idx = {} THEN 0 ELSE CHOOSE i \in idx : TRUE
 HasType  == TypeItem # 0
 TypeBase == ItemBase + TypeItem
 \* the type namespace of m1: its own T, and what the import brings in
 TypeResolve(name) == IF name = "T" /\ HasType THEN TypeBase
-                     ELSE IF name = "A" /\ imp = "unqtype" THEN LibTypeA
-                     ELSE IF name = "L" /\ imp = "typealias" THEN LibTypeT
+                     ELSE IF name = "A" /\ UnqAt("unqtype") # 0 THEN LibBase(UnqMod("unqtype")) + OffTypeA
+                     ELSE IF name = "L" /\ UnqAt("typealias") # 0 THEN LibBase(UnqMod("typealias")) + OffTypeT
                      ELSE 0
 \* constructors are values of the module scope; the type itself is in the type namespace only
 CtorId(name) == IF ~HasType THEN 0 ELSE IF name = "T" THEN TypeBase + CtorT ELSE IF name = "V" THEN TypeBase + CtorU ELSE 0
@@ -107,12 +151,19 @@ ModuleValue(name) == IF ItemId(name) # 0 THEN ItemId(name) ELSE IF CtorId(name) 
 
 Resolve(name) == IF Local(name) # 0 THEN Local(name) ELSE ModuleValue(name)
 
-RefNames == Names \cup (IF imp = "unq" THEN {"c"} ELSE IF imp = "unqalias" THEN {"d", "c"} ELSE {"c"})
+\* `c` is written whether or not it is imported (unbound otherwise); `d` only when some import declares it
+RefNames == Names \cup {"c"} \cup (IF UnqAt("unqalias") # 0 THEN {"d"} ELSE {})
 Visible  == {n \in Names \cup SpareNames \cup {"c", "d", "T", "V", "A"} : Resolve(n) # 0}
-Accessor == IF imp = "plain" THEN "m2" ELSE IF imp = "alias" THEN "q" ELSE ""
-\* module names in scope for `name.`: every import form brings the module in under its own last segment, `as q` under
-\* the alias ONLY (the generator writes qualified references just for the plain and alias forms)
-VisibleModules == IF imp = "none" THEN {} ELSE IF imp = "alias" THEN {"q"} ELSE {"m2"}
+\* module accessors in scope for `name.`: every import brings its module in under the last segment of its path, `as q`
+\* under the alias ONLY; AccMod: the module an accessor stands for
+Accessors == {AccOf(imps[k]) : k \in 1..Len(imps)}
+AccMod(acc) == imps[CHOOSE k \in 1..Len(imps) : AccOf(imps[k]) = acc].m
+VisibleModules == Accessors
+HeaderLabel ==
+    LET UL(u) == CASE u = "none" -> "" [] u = "unq" -> ".{c}" [] u = "unqalias" -> ".{c as d}" [] u = "unqctor" -> ".{A}"
+                   [] u = "unqtype" -> ".{type A}" [] u = "typealias" -> ".{type T as L}"
+        IL(i) == i.m \o UL(i.u) \o (IF i.as # "" THEN " as " \o i.as ELSE "")
+    IN IF Len(imps) = 0 THEN "none" ELSE IF Len(imps) = 1 THEN IL(imps[1]) ELSE IL(imps[1]) \o " + " \o IL(imps[2])
 
 \* pop frames down to and including the innermost mark
 RECURSIVE PopToMark(_)
@@ -195,7 +246,7 @@ Tok(t, r, tg, vis) == [t |-> t, r |-> r, tg |-> tg, vis |-> vis]
 Plain(t) == Tok(t, "kw", 0, {})
 
 Init == /\ todo = <<>> /\ out = <<>> /\ frames = <<>> /\ pending = <<>> /\ budget = Budget
-        /\ imp = "none" /\ items = <<>> /\ phase = "header"
+        /\ imps = <<>> /\ items = <<>> /\ phase = "header"
 
 Pick(S) == IF Sim /\ S # {} THEN {RandomElement(S)} ELSE S
 
@@ -203,28 +254,39 @@ Pick(S) == IF Sim /\ S # {} THEN {RandomElement(S)} ELSE S
 ItemLists == UNION {[1..k -> [k : {"fn", "const"}, n : Names] \cup {[k |-> "type", n |-> "T"], [k |-> "alias", n |-> "B"]}] : k \in 1..MaxItems}
 DistinctNames(l) == /\ \A i, j \in 1..Len(l) : i # j => l[i].n # l[j].n
                     /\ "type" \notin Masked \/ \A i \in 1..Len(l) : l[i].k # "type"
+                    /\ "item_b" \notin Masked \/ \A i \in 1..Len(l) : l[i].n # "b"
                     \* an alias `type B = T` needs the type, and comes last (its `T` is then the last token of the file)
                     /\ \A i \in 1..Len(l) : l[i].k = "alias" => (i = Len(l) /\ \E j \in 1..Len(l) : l[j].k = "type")
+\* tokens of one import
+ImportToks(i) ==
+    LET base == LibBase(i.m)
+        V(n) == LibVal(i.m, n)
+    IN <<Plain("import")>>
+       \o (IF i.m = "m2" THEN <<Tok("m2", "modpath", base, {})>>
+           ELSE <<Tok("sub", "modpath", base, {}), Plain("/"), Tok("m2", "modpath", base, {})>>)
+       \o (CASE i.u = "none" -> <<>>
+             [] i.u = "unq" -> <<Plain("."), Plain("{"), Tok("c", "impname", V("c"), {}), Plain("}")>>
+             [] i.u = "unqalias" -> <<Plain("."), Plain("{"), Tok("c", "impname", V("c"), {}), Plain("as"),
+                                      Tok("d", "impalias", V("c"), {}), Plain("}")>>
+             [] i.u = "unqctor" -> <<Plain("."), Plain("{"), Tok("A", "impname", V("A"), {}), Plain("}")>>
+             [] i.u = "unqtype" -> <<Plain("."), Plain("{"), Plain("type"), Tok("A", "impname", base + OffTypeA, {}), Plain("}")>>
+             [] i.u = "typealias" -> <<Plain("."), Plain("{"), Plain("type"), Tok("T", "impname", base + OffTypeT, {}), Plain("as"),
+                                       Tok("L", "impalias", base + OffTypeT, {}), Plain("}")>>)
+       \o (IF i.as = "" THEN <<>> ELSE <<Plain("as"), Tok(i.as, "moddef", base, {})>>)
+HeaderAllowed(h) == \A k \in 1..Len(h) : h[k].u \notin Masked
 Header == /\ phase = "header"
-          /\ \E f \in Pick(ImportForms \ Masked), l \in Pick({l \in ItemLists : DistinctNames(l) /\ l[1].k = "fn"}) :
-               /\ imp' = f /\ items' = l
+          /\ \E f \in Pick({h \in HeaderSet : HeaderAllowed(h)}), l \in Pick({l \in ItemLists : DistinctNames(l) /\ l[1].k = "fn"}) :
+               /\ imps' = f /\ items' = l
                /\ todo' = [i \in 1..Len(l) |-> Sym("ITEM", l[i].k, i)]
-               /\ out' = IF f = "none" THEN <<>>
-                         ELSE <<Plain("import"), Tok("m2", "modpath", LibModule, {})>>
-                              \o (CASE f = "plain" -> <<>>
-                                    [] f = "alias" -> <<Plain("as"), Tok("q", "moddef", LibModule, {})>>
-                                    [] f = "unq" -> <<Plain("."), Plain("{"), Tok("c", "impname", LibValues.c, {}), Plain("}")>>
-                                    [] f = "unqalias" -> <<Plain("."), Plain("{"), Tok("c", "impname", LibValues.c, {}), Plain("as"),
-                                                           Tok("d", "impalias", LibValues.c, {}), Plain("}")>>
-                                    [] f = "unqctor" -> <<Plain("."), Plain("{"), Tok("A", "impname", LibValues.A, {}), Plain("}")>>
-                                    [] f = "unqtype" -> <<Plain("."), Plain("{"), Plain("type"), Tok("A", "impname", LibTypeA, {}), Plain("}")>>
-                                    [] f = "typealias" -> <<Plain("."), Plain("{"), Plain("type"), Tok("T", "impname", LibTypeT, {}), Plain("as"),
-                                                            Tok("L", "impalias", LibTypeT, {}), Plain("}")>>)
+               /\ out' = IF Len(f) = 0 THEN <<>> ELSE IF Len(f) = 1 THEN ImportToks(f[1]) ELSE ImportToks(f[1]) \o ImportToks(f[2])
                /\ phase' = "body"
           /\ UNCHANGED <<frames, pending, budget>>
 
 Hd == todo[1]
 Rest == Tail(todo)
+
+\* target of the last qualified name emitted
+LastQref == LET is == {i \in 1..Len(out) : out[i].r = "qref"} IN out[CHOOSE i \in is : \A j \in is : j <= i].tg
 
 \* one derivation step
 Step ==
@@ -250,7 +312,7 @@ Step ==
        [] h.s = "ITEMNAME" ->
             /\ Emit(Tok(h.x, "def", ItemBase + h.n, {})) /\ todo' = Rest /\ UNCHANGED <<frames, pending, budget>>
        [] h.s = "PARAMS" ->
-            \E k \in Pick({0, 1, 2, 3}) :
+            \E k \in Pick({k \in {0, 1, 2, 3} : Allowed(<<"params0", "params1", "params2", "params3">>[k + 1])}) :
                /\ todo' = (CASE k = 0 -> <<>> [] k = 1 -> <<NT("BINDER")>> [] k = 2 -> <<NT("BINDER"), T(","), NT("BINDER")>>
                              [] k = 3 -> <<NT("BINDER"), T(":"), NT("TYPEREF")>>) \o Rest
                /\ UNCHANGED <<out, frames, pending, budget>>
@@ -264,18 +326,22 @@ Step ==
             \* an annotation: m1's own type T, an imported type (A, or m2.T under its alias L), the library's T through the
             \* accessor - or the name A / T when nothing declares it in the TYPE namespace (tg = 0: unresolved; in
             \* particular `import m2.{A}` imports the constructor only)
-            \E q \in Pick({"T", "A"} \cup (IF Accessor # "" THEN {"acc"} ELSE {}) \cup (IF imp = "typealias" THEN {"L"} ELSE {})) :
-               /\ out' = IF q = "acc" THEN out \o <<Tok(Accessor, "tmodref", LibModule, {}), Plain("."), Tok("T", "qtref", LibTypeT, {})>>
-                               ELSE Append(out, Tok(q, "tref", TypeResolve(q), {}))
+            \E q \in Pick({"T", "A"} \cup Accessors \cup (IF UnqAt("typealias") # 0 THEN {"L"} ELSE {})) :
+               /\ out' = IF q \in Accessors
+                         THEN out \o <<Tok(q, "tmodref", LibBase(AccMod(q)), {}), Plain("."), Tok("T", "qtref", LibBase(AccMod(q)) + OffTypeT, {})>>
+                         ELSE Append(out, Tok(q, "tref", TypeResolve(q), {}))
                /\ todo' = Rest /\ UNCHANGED <<frames, pending, budget>>
-       [] h.s = "NEEDACC" -> /\ Accessor # "" /\ todo' = Rest /\ UNCHANGED <<out, frames, pending, budget>>
+       [] h.s = "NEEDACC" -> /\ Accessors # {} /\ todo' = Rest /\ UNCHANGED <<out, frames, pending, budget>>
        [] h.s \in {"QCTORA", "PQCTORA"} ->
-            /\ out' = out \o <<Tok(Accessor, IF h.s = "QCTORA" THEN "modref" ELSE "pmodref", LibModule, {}), Plain("."), Tok("A", "qref", LibValues.A, {})>>
-            /\ todo' = Rest /\ UNCHANGED <<frames, pending, budget>>
+            \E acc \in Pick(Accessors) :
+               /\ out' = out \o <<Tok(acc, IF h.s = "QCTORA" THEN "modref" ELSE "pmodref", LibBase(AccMod(acc)), {}), Plain("."),
+                                  Tok("A", "qref", LibVal(AccMod(acc), "A"), {})>>
+               /\ todo' = Rest /\ UNCHANGED <<frames, pending, budget>>
        [] h.s = "UNQCTORA" -> /\ Emit(Tok("A", "ref", Resolve("A"), Visible)) /\ todo' = Rest /\ UNCHANGED <<frames, pending, budget>>
-       [] h.s = "LIBLABEL" -> /\ Emit(Tok(h.x, IF h.n = 0 THEN "label" ELSE "plabel", LibFieldA, {})) /\ todo' = Rest /\ UNCHANGED <<frames, pending, budget>>
+       \* the label of `acc.A(a: ..)`: the field of the constructor just written (the last qualified name emitted)
+       [] h.s = "LIBLABEL" -> /\ Emit(Tok(h.x, IF h.n = 0 THEN "label" ELSE "plabel", LastQref + (OffFieldA - LibOff.A), {})) /\ todo' = Rest /\ UNCHANGED <<frames, pending, budget>>
        \* a label of an unqualified `A(a: ..)`: denotes the field only if A is the imported constructor
-       [] h.s = "UNQLIBLABEL" -> /\ Emit(Tok(h.x, "label", IF Resolve("A") = LibValues.A THEN LibFieldA ELSE 0, {})) /\ todo' = Rest /\ UNCHANGED <<frames, pending, budget>>
+       [] h.s = "UNQLIBLABEL" -> /\ Emit(Tok(h.x, "label", IF Resolve("A") >= LibBase("m2") THEN Resolve("A") + (OffFieldA - LibOff.A) ELSE 0, {})) /\ todo' = Rest /\ UNCHANGED <<frames, pending, budget>>
        [] h.s = "OWNCTOR" -> /\ Emit(Tok(h.x, IF h.n = 0 THEN "ref" ELSE "pref", CtorId(h.x), IF h.n = 0 THEN Visible ELSE {}))
                              /\ todo' = Rest /\ UNCHANGED <<frames, pending, budget>>
        [] h.s = "LABEL" -> /\ Emit(Tok(h.x, IF h.n = 0 THEN "label" ELSE "plabel", TypeBase + (IF h.x = "a" THEN FieldA ELSE FieldB), {}))
@@ -309,33 +375,34 @@ Step ==
                /\ Emit(Tok(n, "ref", Resolve(n), Visible))
                /\ todo' = Rest /\ UNCHANGED <<frames, pending, budget>>
        [] h.s = "QUALIFIED" ->
-            /\ Accessor # ""
-            /\ \E n \in Pick({"a", "c", "p", "k", "A", "Q"}) :
+            /\ \E acc \in Pick(Accessors), n \in Pick({"a", "c", "p", "k", "A", "Q"}) :
                  /\ out' = out \o <<Tok("FIELD_ACCESS", "open", 0, {}),
-                                    Tok(Accessor, "modref", LibModule, Visible), Plain("."),
-                                    Tok(n, "qref", IF n \in LibPrivate THEN 0 ELSE LibValues[n], {}),
+                                    Tok(acc, "modref", LibBase(AccMod(acc)), Visible), Plain("."),
+                                    Tok(n, "qref", IF n \in LibPrivate THEN 0 ELSE LibVal(AccMod(acc), n), {}),
                                     Tok("", "close", 0, {})>>
                  /\ todo' = Rest /\ UNCHANGED <<frames, pending, budget>>
        [] h.s \in {"CTOR", "PCTOR"} ->
-            /\ Accessor # ""
-            /\ out' = out \o <<Tok(Accessor, IF h.s = "CTOR" THEN "modref" ELSE "pmodref", LibModule, {}), Plain("."),
-                               Tok("A", "qref", LibValues.A, {})>>
-                          \o (IF h.s = "CTOR" THEN <<Plain("("), Plain("1"), Plain(")")>> ELSE <<>>)
-            /\ todo' = Rest /\ UNCHANGED <<frames, pending, budget>>
+            \E acc \in Pick(Accessors) :
+               /\ out' = out \o <<Tok(acc, IF h.s = "CTOR" THEN "modref" ELSE "pmodref", LibBase(AccMod(acc)), {}), Plain("."),
+                                  Tok("A", "qref", LibVal(AccMod(acc), "A"), {})>>
+                             \o (IF h.s = "CTOR" THEN <<Plain("("), Plain("1"), Plain(")")>> ELSE <<>>)
+               /\ todo' = Rest /\ UNCHANGED <<frames, pending, budget>>
        [] OTHER ->
             \E p \in Pick({p \in Prods(h) : p.c <= budget /\ Allowed(p.p)}) :
                /\ todo' = p.r \o Rest
                /\ budget' = budget - p.c
                /\ UNCHANGED <<out, frames, pending>>
-  /\ UNCHANGED <<imp, items, phase>>
+  /\ UNCHANGED <<imps, items, phase>>
 
 Done == phase = "body" /\ todo = <<>>
 
 \* Rename (C07): the declaration ids occurring in the program and, for each, the tokens a rename must
 \* rewrite - the declaring token and every occurrence bound to it that is spelled with the declaration's own
-\* name (an occurrence through an import alias keeps its spelling).  Library declarations are declared in m2.
-DeclName(d) == IF d = LibTypeT THEN "T" ELSE IF d = LibTypeA THEN "A" ELSE IF d = LibFieldA THEN "a" ELSE IF d = LibValues.a THEN "a" ELSE IF d = LibValues.c THEN "c" ELSE IF d = LibValues.A THEN "A"
-               ELSE IF d = LibValues.C THEN "C" ELSE IF d = LibValues.k THEN "k"
+\* name (an occurrence through an import alias keeps its spelling).  Library declarations are declared in m2 (2001..) and
+\* sub/m2 (3001..): the edits in the declaring module are its declaration and its uses there (the harness knows the fixed
+\* texts); the other library module is never touched.
+LibDeclName == <<"a", "c", "A", "C", "k", "T", "A", "a">>      \* by offset: values a c A C k, type T, type A, field a
+DeclName(d) == IF d >= LibBase("m2") THEN LibDeclName[d % 1000]
                ELSE IF d > ItemBase + FieldB THEN "b" ELSE IF d > ItemBase + FieldA THEN "a"
                ELSE IF d > ItemBase + CtorU THEN "V" ELSE IF d > ItemBase + CtorT THEN "T"
                ELSE IF d > ItemBase THEN items[d - ItemBase].n ELSE out[d].t
@@ -352,13 +419,16 @@ RenameComplete == Done => \A d \in DeclIds : \A i \in 1..Len(out) :
 
 \* fields offered after `value.` for a value of m1's own type: the fields common to all its variants, in label order
 CommonFields == IF HasType THEN <<"a", "b">> ELSE <<>>
-Program == [imp |-> imp, items |-> items, out |-> out, ren |-> Renames, mods |-> VisibleModules, fields |-> CommonFields]
+\* what is offered after `acc.` for every accessor in scope
+AccTable == {[acc |-> a, mod |-> AccMod(a), base |-> LibBase(AccMod(a)), members |-> LibMembers(AccMod(a))] : a \in Accessors}
+Program == [imp |-> HeaderLabel, imps |-> imps, items |-> items, out |-> out, ren |-> Renames, mods |-> VisibleModules, accs |-> AccTable,
+            fields |-> CommonFields]
 
 \* simulation mode: print the finished program and start over
 Finish == /\ Sim /\ Done
           /\ PrintT(<<"CASE", ToJson(Program)>>)
           /\ todo' = <<>> /\ out' = <<>> /\ frames' = <<>> /\ pending' = <<>> /\ budget' = Budget
-          /\ imp' = "none" /\ items' = <<>> /\ phase' = "header"
+          /\ imps' = <<>> /\ items' = <<>> /\ phase' = "header"
 
 Next == Header \/ Step \/ Finish
 Spec == Init /\ [][Next]_vars
